@@ -97,6 +97,12 @@ func main() {
 			fmt.Fprintf(os.Stderr, "unknown scenario %q\n", *worker)
 			os.Exit(2)
 		}
+		if s.Setup != nil {
+			if x := vrt.Run(s.Setup, vrt.Options{Horizon: s.Horizon}); x.Outcome != vrt.OutcomeOK || len(x.Failures) > 0 {
+				fmt.Fprintf(os.Stderr, "scenario setup failed: %s %s %v\n", x.Outcome, x.Detail, x.Failures)
+				os.Exit(2)
+			}
+		}
 		c := cfgOf(s)
 		c.Shard, c.Shards = *shard, *shards
 		if *budgetS > 0 {
@@ -252,6 +258,9 @@ func doReplay() int {
 	if !ok {
 		fmt.Fprintf(os.Stderr, "unknown scenario %q\n", rp.Scenario)
 		return 2
+	}
+	if s.Setup != nil {
+		vrt.Run(s.Setup, vrt.Options{Horizon: s.Horizon})
 	}
 	c := cfgOf(s)
 	var first *vrt.Execution
